@@ -1251,3 +1251,26 @@ def norm_fact_nodes(f, n, all_locals=True):
             continue
         add(expand_locals(f, f.nodes[cid], 0, all_locals), pol)
     return out
+
+
+def cond_atoms(f, cond, pol=True, canon=True, all_locals=False):
+    """the atoms a condition expression contributes when it has truth `pol` (same normalisation as norm_facts)"""
+    out = []
+
+    def add(c, p):
+        c = strip(c)
+        while c is not None and c["k"] == "UnaryOperator" and c.get("op") == "!":
+            p = not p
+            c = strip(kids(c)[0])
+        if c is None:
+            return
+        if c["k"] == "BinaryOperator" and ((c.get("op") == "&&" and p) or (c.get("op") == "||" and not p)):
+            add(kids(c)[0], p)
+            add(kids(c)[1], p)
+            return
+        if canon and c["k"] == "BinaryOperator" and c.get("op") in ("<", "<=", ">", ">=", "==", "!="):
+            out.append(canon_rel((render(kids(c)[0]).replace(" ", ""), c["op"], render(kids(c)[1]).replace(" ", "")), p))
+            return
+        out.append((render(c).replace(" ", ""), p))
+    add(expand_locals(f, cond, 0, all_locals), pol)
+    return out
